@@ -205,3 +205,68 @@ Proof.
       rewrite Hv. unfold draw_R. rewrite mult_IZR. rewrite (IZR_Zpower radix2) by lia.
       rewrite Rmult_assoc, <- bpow_plus. f_equal. f_equal. unfold E. lia.
 Qed.
+
+(* ---------- the draw itself: Rust computes `(bits >> 11) as f64 / (1u64 << 53) as f64` (fuzzer bytes); in IEEE-754
+   arithmetic with round-to-nearest-even - Flocq's binary_normalize for the integer-to-float conversion, Bdiv for the
+   division - that is a finite number whose value is exactly k * 2^-53: both conversions and the division are exact
+   for k < 2^53.  So draw_R k is not an idealisation of what the code computes. ---------- *)
+Definition Hprec : Prec_gt_0 53 := eq_refl.
+Definition Hemax : BinarySingleNaN.Prec_lt_emax 53 1024 := eq_refl.
+Definition of_int (n : Z) : binary64 := binary_normalize 53 1024 Hprec Hemax BinarySingleNaN.mode_NE n 0 false.
+
+Lemma IZR_2_53 : IZR (2 ^ 53) = bpow radix2 53.
+Proof. exact (IZR_Zpower radix2 53 ltac:(lia)). Qed.
+
+Lemma fexp_is_FLT : SpecFloat.fexp 53 1024 = FLT_exp (-1074) 53.
+Proof. reflexivity. Qed.
+
+Lemma small_generic : forall m e, Z.abs m < 2 ^ 53 -> -1074 <= e ->
+  generic_format radix2 (SpecFloat.fexp 53 1024) (F2R (Float radix2 m e)).
+Proof.
+  intros m e Hm He. rewrite fexp_is_FLT. apply generic_format_FLT. exists (Float radix2 m e); [reflexivity | exact Hm | exact He].
+Qed.
+
+Lemma of_int_exact : forall n, (Z.abs n < 2 ^ 53 \/ n = 2 ^ 53) ->
+  B2R 53 1024 (of_int n) = IZR n /\ is_finite 53 1024 (of_int n) = true.
+Proof.
+  intros n Hn. unfold of_int.
+  pose proof (binary_normalize_correct 53 1024 Hprec Hemax BinarySingleNaN.mode_NE n 0 false) as C.
+  assert (V : F2R (Float radix2 n 0) = IZR n) by (unfold F2R; cbn [Fnum Fexp bpow]; lra).
+  assert (G : generic_format radix2 (SpecFloat.fexp 53 1024) (F2R (Float radix2 n 0))).
+  { destruct Hn as [Hn| ->]; [apply small_generic; [exact Hn | lia]|].
+    replace (F2R (Float radix2 (2 ^ 53) 0)) with (F2R (Float radix2 1 53)).
+    - apply small_generic; [reflexivity | lia].
+    - unfold F2R. cbn [Fnum Fexp]. rewrite IZR_2_53. cbn [bpow]. lra. }
+  rewrite (round_generic radix2 _ _ (F2R (Float radix2 n 0)) G) in C.
+  assert (B : (Rabs (F2R (Float radix2 n 0)) < bpow radix2 1024)%R).
+  { rewrite V. apply Rle_lt_trans with (IZR (2 ^ 53)).
+    - rewrite <- abs_IZR. apply IZR_le. destruct Hn as [Hn| ->]; [lia | reflexivity].
+    - rewrite IZR_2_53. apply bpow_lt. lia. }
+  rewrite (Rlt_bool_true _ _ B) in C. destruct C as (C1 & C2 & _). rewrite C1, V. split; [reflexivity | exact C2].
+Qed.
+
+Theorem draw_exact : forall k div_nan, (k < 2 ^ 53)%N ->
+  let d := Bdiv 53 1024 Hprec Hemax div_nan BinarySingleNaN.mode_NE (of_int (Z.of_N k)) (of_int (2 ^ 53)) in
+  is_finite 53 1024 d = true /\ B2R 53 1024 d = draw_R k.
+Proof.
+  intros k div_nan Hk d.
+  assert (Hk' : Z.abs (Z.of_N k) < 2 ^ 53).
+  { rewrite Z.abs_eq by lia. change (2 ^ 53) with (Z.of_N (2 ^ 53)). apply N2Z.inj_lt. exact Hk. }
+  destruct (of_int_exact (Z.of_N k) (or_introl Hk')) as [X1 X2].
+  destruct (of_int_exact (2 ^ 53) (or_intror eq_refl)) as [Y1 Y2].
+  assert (Ynz : B2R 53 1024 (of_int (2 ^ 53)) <> 0%R).
+  { rewrite Y1. rewrite IZR_2_53. apply Rgt_not_eq, bpow_gt_0. }
+  pose proof (Bdiv_correct 53 1024 Hprec Hemax div_nan BinarySingleNaN.mode_NE (of_int (Z.of_N k)) (of_int (2 ^ 53)) Ynz) as C.
+  rewrite X1, Y1 in C.
+  assert (Q : (IZR (Z.of_N k) / IZR (2 ^ 53) = F2R (Float radix2 (Z.of_N k) (-53)))%R).
+  { unfold F2R. cbn [Fnum Fexp]. rewrite IZR_2_53. unfold Rdiv. rewrite <- bpow_opp. reflexivity. }
+  rewrite Q in C.
+  rewrite (round_generic radix2 _ _ _ (small_generic (Z.of_N k) (-53) Hk' ltac:(lia))) in C.
+  assert (B : (Rabs (F2R (Float radix2 (Z.of_N k) (-53))) < bpow radix2 1024)%R).
+  { unfold F2R. cbn [Fnum Fexp]. rewrite Rabs_mult, <- abs_IZR, (Rabs_pos_eq (bpow radix2 (-53))) by apply bpow_ge_0.
+    apply Rlt_trans with (IZR (2 ^ 53) * bpow radix2 (-53))%R.
+    - apply Rmult_lt_compat_r; [apply bpow_gt_0 | apply IZR_lt; exact Hk'].
+    - rewrite IZR_2_53. rewrite <- bpow_plus. apply bpow_lt. lia. }
+  rewrite (Rlt_bool_true _ _ B) in C. destruct C as (C1 & C2 & _).
+  subst d. split; [rewrite C2; exact X2 | rewrite C1; reflexivity].
+Qed.
